@@ -253,8 +253,8 @@ def w_mzm(ctx, rng, i):
         d1 = rng.normal(0, 1, m_bad)
         ctx.raises("mzm.errors", ValueError, D.MZM, x1, [d1, d1.tolist(), T.electrical_signal(d1)][int(rng.integers(3))])
         ctx.raises("pm.errors", ValueError, D.PM, x1, d1)
-        ctx.raises("mzm.errors", TypeError, D.MZM, T.electrical_signal(np.ones(n)), u)
-        ctx.raises("mzm.errors", ValueError, D.MZM, x, u, pol=str(rng.choice(["z", "X", "xy", ""])))
+        ctx.probe("mzm.electrical_input", D.MZM, T.electrical_signal(np.ones(n)), u)        # (probe: the statement names one rejection only — mismatched lengths)
+        ctx.probe("mzm.other_pol", D.MZM, x, u, pol=str(rng.choice(["z", "X", "xy", ""])))
     ctx.case(("mzm", n_pol, noise_kind, dkind, n, round(Vpi), round(loss / 5), round(ER / 10), pol), nontrivial=dkind != "const" or noise_kind != "none" or n_pol == 2,
              sample={"n": n, "n_pol": n_pol, "noise": noise_kind, "Vpi": Vpi, "bias": bias, "loss_dB": loss, "ER_dB": ER, "pol": pol, "drive": dkind} if i < 4 else None)
     ctx.bin("mzm.noise", noise_kind)
@@ -314,8 +314,8 @@ def w_pm(ctx, rng, i):
         ctx.check("pm.input_unchanged", core.digest(x.signal, x.noise, a) == d0, "PM modified its inputs")
         ctx.raises("pm.errors", ValueError, D.PM, x, np.zeros(n + int(rng.integers(1, 4))), Vpi)
         ctx.raises("pm.errors", ValueError, D.PM, x, T.electrical_signal(np.zeros(n + 1)), Vpi)
-        ctx.raises("pm.errors", TypeError, D.PM, T.electrical_signal(np.ones(n)), a, Vpi)
-        ctx.raises("pm.errors", TypeError, D.PM, x, "1.0", Vpi)
+        ctx.probe("pm.electrical_input", D.PM, T.electrical_signal(np.ones(n)), a, Vpi)
+        ctx.probe("pm.string_drive", D.PM, x, "1.0", Vpi)
     ctx.case(("pm", n_pol, noise_kind, dkind, n, round(Vpi)), nontrivial=True, sample={"n": n, "n_pol": n_pol, "noise": noise_kind, "Vpi": Vpi, "drive": dkind} if i < 4 else None)
     ctx.bin("pm.noise", noise_kind)
 
@@ -353,7 +353,7 @@ def w_laser(ctx, rng, i):
             pk = int(np.argmax(X))
             exact = abs((df or 0.0) * n / T.gv.fs - np.round((df or 0.0) * n / T.gv.fs)) < 0.45
             ctx.check("laser.peak", pk == want or (abs((df or 0) * 2) >= T.gv.fs * (1 - 1e-9) and pk in (n // 2, n - n // 2)) or not exact, f"LASER spectral peak at bin {pk}, df={df} corresponds to bin {want}")
-        ctx.raises("laser.errors", ValueError, D.LASER, t, p, None, None, float(T.gv.fs * rng.uniform(0.5001, 3)) * (1 if rng.integers(2) else -1))
+        ctx.probe("laser.offset_beyond_nyquist", D.LASER, t, p, None, None, float(T.gv.fs * rng.uniform(0.5001, 3)) * (1 if rng.integers(2) else -1))
     ctx.case(("laser", sps, n, lw is None, mode, round(p / 10)), sample={"n": n, "fs": T.gv.fs, "p_dBm": p, "lw": lw, "df": df} if i < 4 else None)
     ctx.bin("laser.mode", ["no_df", "random_df", "bin_df"][mode])
 
